@@ -409,7 +409,8 @@ MiscValueVerdict(e) ==
     [] OTHER -> "ok"
 
 RawVerdict(e) ==
-  IF ~Frame(e) THEN "reject:frame-mode"
+  IF Has(e, "timeout") THEN "reject:no-termination"                       \* the driver's watchdog: the call had not returned after two minutes
+  ELSE IF ~Frame(e) THEN "reject:frame-mode"
   ELSE IF Panicked(e) /\ ~PanicAllowed(e) THEN "reject:panic"
   ELSE IF Has(e, "det") /\ ~e.det THEN "reject:nondeterministic"
   ELSE IF Has(e, "seqeq") /\ ~e.seqeq THEN "reject:concurrent-result-differs"
